@@ -274,6 +274,7 @@ func init() {
 		if mode == 3 {
 			// base64 whose '=' padding was stripped: not valid for StdEncoding, valid for RawStdEncoding
 			in.Assume(smt.And(smt.Not(B64OK("std", enc)), B64OK("rawstd", enc)))
+			in.Assume(smt.Not(smt.StrSuffixOf(smt.StrLit("="), enc)))
 			raw = B64D("rawstd", enc)
 			mode = 0
 			in.Ghost["choice:"+name+".unpadded"] = 1
@@ -298,7 +299,6 @@ func init() {
 			ir.Extra["inflated_len"] = BLen(infl)
 			in.Assume(smt.And(smt.BVSle(smt.BV(65536, 64), BLen(infl)), smt.BVSle(BLen(infl), smt.BV(1<<26, 64))))
 		}
-		in.Ghost["choice:"+name+".mode"] = mode
 		in.Ghost["wire:"+name] = raw
 		return enc
 	}
